@@ -233,7 +233,8 @@ func TestDecoratedSchema(t *testing.T) {
 		st := gen.DefaultStyle()
 		st.NL = rapid.SampledFrom([]string{"\n", "\r\n", "\r"}).Draw(t, "nl")
 		st.Indent = rapid.SampledFrom([]string{"", "  ", "\t"}).Draw(t, "indent")
-		st.Comments = rapid.IntRange(0, 3).Draw(t, "comments")
+		st.Comments = rapid.IntRange(0, 4).Draw(t, "comments")
+		st.TightComments = rapid.Bool().Draw(t, "tightComments")
 		st.BlankLines = rapid.Bool().Draw(t, "blank")
 		st.SpaceBeforeColon = rapid.Bool().Draw(t, "sbc")
 		text := gen.PrintSchema(sn, st)
